@@ -415,9 +415,20 @@ class LazyGenerators:
                 out.append(r)
                 continue
             selfname = fr.selfname
-            env = tuple((nm, r.state.get(fr.local(nm))) for nm in used if nm != selfname and r.state.has(fr.local(nm)))
+            from .absint import heap_key
+            s_cur, env = r.state, []
+            for nm in used:
+                if nm == selfname or not s_cur.has(fr.local(nm)):
+                    continue
+                v = s_cur.get(fr.local(nm))
+                if getattr(self, "heap", False) and isinstance(v, tuple) and v[:1] in (("kwdict",), ("tuple",), ("set",)):
+                    # the expression runs later and elsewhere: a list / dict / set it uses is the same object the frame goes on using
+                    k = s_cur.get("ev.heap", 0)
+                    s_cur = s_cur.set("ev.heap", k + 1).set(heap_key(("h", k)), v).set(fr.local(nm), ("h", k))
+                    v = ("h", k)
+                env.append((nm, v))
             ctx = (fr.receiver, fr.instance, selfname)
-            out.append(val(("lazycomp", comp, r.value, env, ctx, fr.func), r.state))
+            out.append(val(("lazycomp", comp, r.value, tuple(env), ctx, fr.func), s_cur))
         return out
 
     def _comp_step(self, comp, env_names, ctx, host):
